@@ -82,7 +82,7 @@ import os
 
 from translate import TranslatorError, _parse, _find_func, _strip_doc, _float_lit
 from pytrans import WIDTH
-from pytrans_cms import CellTrans, Cells, COQ_RESERVED, sig_types, _check_tail_stores, _check_index_stability
+from pytrans_cms import CellTrans, Cells, COQ_RESERVED, sig_types, _check_tail_stores, _check_index_stability, split_query
 
 FNAME = "KernelsLog.v"
 SOURCE = "countmin.py"
@@ -571,22 +571,16 @@ def _query_log(n):
         name = f"_query_log{n}"
         fn = _find_func(cm, name)
         body = _strip_doc(fn)
-        _same_shape(fn, body, ["Assign", "For", "Return"])
         cms, buckets, width, depth, umax, key = _params(fn, QUERY_KINDS[n])
-        mc = _target(fn, body[0], "the running minimum")
-        row = _loop(fn, body[1], depth)
-        loop = body[1].body
-        _same_shape(fn, loop, ["Assign", "Assign", "If"])
-        if not (isinstance(loop[0], ast.Assign) and ast.unparse(loop[0].targets[0]) == f"{buckets}[{row}]") or cms in _names(loop[0].value):
-            raise TranslatorError(f"{name}: first statement of the loop is not the column assignment `{buckets}[{row}] = ...`")
-        if not (isinstance(body[2].value, ast.Name) and body[2].value.id == mc):
-            raise TranslatorError(f"{name}: does not return the running minimum")
+        # the row hash is not part of the min-reduction (C14 pins it): pytrans_cms.split_query skips whatever computes the columns
+        init, loopnode, region, mc = split_query(fn, body, cms, buckets, depth)
+        row = loopnode.target.id
         cell = f"{cms}_{row}_{buckets}_{row}"
         t = CellTrans({})
-        return [_c(f"countmin.py {name} {_ln(body[0])}: the running minimum starts from {umax}"),
-                t.cell_region(f"gen_query_log{n}_init", fn, body[0:1], [umax], [mc]),
-                _c(f"{name} {_ln(loop[1], loop[2])}: one row of the loop, after the column was stored into {buckets}[{row}]"),
-                t.cell_region(f"gen_query_log{n}_step", fn, loop[1:], [mc, cell], [mc])]
+        return [_c(f"countmin.py {name} {_ln(init)}: the running minimum starts from {umax}"),
+                t.cell_region(f"gen_query_log{n}_init", fn, [init], [umax], [mc]),
+                _c(f"{name} {_ln(region[0], region[-1])}: one row of the loop, after the column computation"),
+                t.cell_region(f"gen_query_log{n}_step", fn, region, [mc, cell], [mc])]
     return f
 
 
